@@ -152,6 +152,7 @@ def detype_histories(tier, seed):
         XSH.env = env
         held = None
         bad = None
+        differs = []
         parked = []
         for i, op in enumerate(hist):
             try:
@@ -204,6 +205,7 @@ def detype_histories(tier, seed):
             got = dict(env.detype())
             env._detyped = None
             want = dict(env.detype())
+            differs = sorted(k for k in set(got) | set(want) if got.get(k) != want.get(k))
             if got != want:
                 bad = "children would receive %r, the environment says %r" % ({k: got.get(k) for k in ("PATH", "FOO", "HOSTTYPE", "BAR")}, {k: want.get(k) for k in ("PATH", "FOO", "HOSTTYPE", "BAR")})
         for th, release in parked:
@@ -213,7 +215,8 @@ def detype_histories(tier, seed):
             hit = None
             for kf in known:
                 try:
-                    if eval(kf["native_class"], {"history": list(hist), "var": None, "value": None, "triple": ("", "", ""), "any": any, "range": range, "len": len}):
+                    if eval(kf["native_class"], {"history": list(hist), "var": None, "value": None, "triple": ("", "", ""), "any": any, "range": range, "len": len,
+                                                 "differs": differs}):
                         hit = kf
                         break
                 except Exception:
